@@ -18,7 +18,11 @@ use std::panic::{catch_unwind, AssertUnwindSafe};
 use std::path::PathBuf;
 use std::time::Instant;
 
-pub const VERIF_DIR: &str = "/verif";
+/// root of the verification framework: `KVH_VERIF_DIR` (set by /verif/check to its own directory, so that a copy of
+/// the framework elsewhere writes its replays into that copy) or /verif
+pub fn verif_dir() -> String {
+    std::env::var("KVH_VERIF_DIR").unwrap_or_else(|_| "/verif".to_string())
+}
 pub const DEFAULT_SEED: u64 = 20261001;
 
 #[derive(Clone, Copy, PartialEq, Eq, Debug)]
@@ -66,7 +70,7 @@ pub fn parse_args(default_prop: &str, engine: &str) -> Args {
         .map(|v| v as u64)
         .unwrap_or(DEFAULT_SEED);
     let out = out.unwrap_or_else(|| {
-        PathBuf::from(format!("{VERIF_DIR}/work/{prop}/{engine}-{mode}.json"))
+        PathBuf::from(format!("{}/work/{prop}/{engine}-{mode}.json", verif_dir()))
     });
     Args {
         prop,
@@ -355,7 +359,7 @@ impl Ctx {
         let _ = std::fs::write(&path, serde_json::to_string(&body).unwrap_or_default());
     }
     fn inflight_path(&self) -> PathBuf {
-        let dir = self.args.out.parent().map(|p| p.to_path_buf()).unwrap_or_else(|| PathBuf::from(format!("{VERIF_DIR}/work/{}", self.args.prop)));
+        let dir = self.args.out.parent().map(|p| p.to_path_buf()).unwrap_or_else(|| PathBuf::from(format!("{}/work/{}", verif_dir(), self.args.prop)));
         dir.join(format!("inflight-{}-{}.json", self.args.engine, self.args.mode))
     }
     /// the long-input case finished: nothing is in flight
@@ -472,13 +476,14 @@ impl Ctx {
             });
             let h = hash_of(&body.to_string());
             let path = format!(
-                "{VERIF_DIR}/replays/{}-{}-{}-{:08x}.json",
+                "{}/replays/{}-{}-{}-{:08x}.json",
+                verif_dir(),
                 self.args.prop,
                 self.args.engine,
                 v.check,
                 h as u32
             );
-            let _ = std::fs::create_dir_all(format!("{VERIF_DIR}/replays"));
+            let _ = std::fs::create_dir_all(format!("{}/replays", verif_dir()));
             let _ = std::fs::write(&path, serde_json::to_string_pretty(&body).unwrap());
             replay_paths.push((path, v.check.clone(), v.msg.clone(), v.case.clone()));
         }
@@ -557,7 +562,7 @@ impl Ctx {
 }
 
 pub fn load_known(prop: &str) -> Vec<KnownFinding> {
-    let path = format!("{VERIF_DIR}/known_findings.txt");
+    let path = format!("{}/known_findings.txt", verif_dir());
     let Ok(text) = std::fs::read_to_string(path) else {
         return Vec::new();
     };
